@@ -26,7 +26,7 @@ ASSUMPTIONS = [
 
 
 def cases(tier):
-    return 500 if tier == "quick" else 25000
+    return 5000 if tier == "quick" else 100000
 
 
 def floors(tier):
